@@ -287,6 +287,12 @@ def check(prop, tier="quick", base_seed=None, workers=None, n_override=None, wal
     if timed_out:
         print(f"HARNESS-ERROR property={prop}: wall cap {wall_cap}s exceeded after {len(results)} runs", file=out)
         return 2
+    if exit_code == 0 and cov.get("evaluations", 0) >= 50 and cov.get("distinct_nontrivial", 0) < max(1, 0.02 * cov["evaluations"]):
+        # nothing (or next to nothing) that was explored exercised the property: "held" would be vacuous, e.g. on a tree that
+        # refuses every instruction; say so instead of passing
+        print(f"HARNESS-ERROR property={prop}: only {cov.get('distinct_nontrivial', 0)} of {cov['evaluations']} runs exercised the property "
+              f"in a non-trivial way (see nontrivial() of its oracles): nothing was verified", file=out)
+        return 2
     if len(aborted) > max(3, 0.2 * max(1, len(results))) and exit_code == 0:
         print(f"HARNESS-ERROR property={prop}: {len(aborted)} of {len(results)} runs aborted by an exception escaping HIVE: {aborted[0]['aborted'][-600:]}", file=out)
         return 2
